@@ -208,18 +208,16 @@ fn process_dir(
             Some(Err(err)) => err.depth(),
             None => 0,
         };
+        // The directories the walk has just left come first, then what was
+        // found next: its diagnostic, or the entry itself.
         let mut ready = Vec::new();
         while pending.last().is_some_and(|dir| dir.depth() >= depth) {
-            ready.extend(pending.pop());
+            ready.extend(pending.pop().map(Ok));
         }
         match result
             .map(|r| WalkEntry::from_walkdir(r, config.follow).map(|e| e.under_starting_point(dir)))
         {
-            Some(Err(err)) => {
-                ret = 1;
-                // A diagnostic that cannot be written must not stop the walk.
-                let _ = writeln!(&mut stderr(), "Error: {err}");
-            }
+            Some(Err(err)) => ready.push(Err(err)),
             Some(Ok(entry)) => {
                 if entry.depth() < config.min_depth {
                     // Not evaluated, but still walked.
@@ -227,12 +225,21 @@ fn process_dir(
                     let _ = entry.metadata();
                     pending.push(entry);
                 } else {
-                    ready.push(entry);
+                    ready.push(Ok(entry));
                 }
             }
             None => {}
         }
         for entry in ready {
+            let entry = match entry {
+                Ok(entry) => entry,
+                Err(err) => {
+                    ret = 1;
+                    // A diagnostic that cannot be written must not stop the walk.
+                    let _ = writeln!(&mut stderr(), "Error: {err}");
+                    continue;
+                }
+            };
             let mut matcher_io = matchers::MatcherIO::new(deps);
 
             // (an entry without a parent, "/", is run from itself: it counts as its own directory)
